@@ -38,6 +38,9 @@
 #define isatty vh_isatty
 #define fcntl vh_fcntl
 #define pthread_create vh_pthread_create
+#define read vh_read
+#define srandom vh_srandom
+#define random vh_random
 
 #include <stdio.h>
 #include <stdlib.h>
@@ -158,6 +161,11 @@ static void* (*g_ev_thread_fn)(void*) = 0; static void* g_ev_thread_arg = 0;
 int vh_pthread_create(pthread_t* t, const pthread_attr_t* a, void* (*fn)(void*), void* arg) {
     (void)t; (void)a; ev_note(EV_pthread_create); g_ev_thread_fn = fn; g_ev_thread_arg = arg; { ND(int, ev_fail); return ev_fail ? EAGAIN : 0; }
 }
+
+ssize_t vh_read(int fd, void* buf, size_t n) { ev_note(EV_readv); g_ev_fd = fd; g_ev_ptr = buf; g_ev_len = n; { ND(long long, ev_n); ASSUME(ev_n >= 0 && (size_t)ev_n <= n); EV_FAIL_OR((ssize_t)ev_n); } }
+static int g_ev_random_calls = 0;
+void vh_srandom(unsigned seed) { (void)seed; }
+long vh_random(void) { ND(long, ev_rnd); g_ev_random_calls++; return ev_rnd; }
 
 /* ---- directory streams: a ghost directory of up to 3 entries; telldir cookie of entry i is i+1 ---- */
 #define EV_DIR_MAX 3
